@@ -21,14 +21,14 @@ INFO = {
 U = {'s': 10 ** 9, 'ms': 10 ** 6, 'us': 10 ** 3, 'ns': 1}
 
 
-def h_counter(n, period, punit, unit, cls, tol='sym', f=('since', ('var', 'x'), ('prev', ('var', 'x'))), pre=None):
+def h_counter(n, period, punit, unit, cls, tol='sym', f=('since', ('var', 'x'), ('prev', ('var', 'x'))), pre=None, late=False):
     f = T(f)
 
     def body(env):
         A = env.A
         vs = sorted(variables(f))
         kind, via = cls.split(':')
-        s = dt.make_spec(kind, 'out = ' + text(f) if via != 'bare' else 'out = x', vs, unit=unit)
+        s = dt.make_spec(kind, 'out = ' + text(f) if via != 'bare' else 'out = x', vs, unit=unit, config_after_parse=late)
         if tol == 'sym':
             tl = env.real('tol')
             env.assume(A.And(A.le(0, tl), A.le(tl, 1)))
@@ -98,6 +98,11 @@ def obligations(tier, rng):
         for pre, n in ([(1, 1), (2, 2)] if quick else [(1, 1), (2, 2), (1, 3), (3, 1), (0, 2)]):
             out.append(ob('C13', 'counter', '%s/P=1s/unit=None/second-data-set/pre=%d/n=%d/tol=sym' % (cls, pre, n), n=n, period=1, punit='s', unit=None,
                           cls=cls, pre=pre, max_paths=20000, wall=900))
+    # the default unit and the sampling period configured AFTER parse()
+    for cls in classes:
+        for period, punit, unit in [(500, 'ms', 's'), (2, 's', 'ms'), (250, 'us', 'ms'), (500, 'ms', 'ms')]:
+            out.append(ob('C13', 'counter', '%s/P=%d%s/unit=%s/configured-after-parse/n=2/tol=sym' % (cls, period, punit, unit), n=2, period=period, punit=punit, unit=unit,
+                          cls=cls, late=True, max_paths=20000, wall=900))
     # online: a run, reset(), another run - the counter describes the second run only (also reset() before the very first update: pre=-1)
     for cls in ('online:update', 'combined:update'):
         for pre, n in ([(1, 1), (-1, 2), (2, 0)] if quick else [(1, 1), (-1, 2), (2, 0), (0, 2), (2, 2), (1, 3)]):
